@@ -43,6 +43,32 @@ def main():
             return {"reproduced": True, "detail": "two samplers built with random_state=0 differ", "input": {"probe": "same-seed"}}
         if runs[0][0].shape == runs[2][0].shape and np.array_equal(runs[0][0], runs[2][0]):
             return {"reproduced": True, "detail": "random_state=0 and 1 give identical histories", "input": {"probe": "different-seed"}}
+        # (1b) repeated fits and repeated seeded runs inside ONE process: a generator shared between calls (cache, module-level
+        # state) makes the second call differ from the first although the inputs are identical.  Data on which the two-component
+        # split depends on the starting point (a curved ridge), so a different stream gives a different partition.
+        t = np.random.RandomState(8).uniform(-2, 2, 400)
+        ridge = np.c_[t, t ** 2] + 0.15 * np.random.RandomState(9).standard_normal((400, 2))
+        for name, fit in (("GaussianMixture(3, random_state=42).fit", lambda: GaussianMixture(3, random_state=42).fit(ridge).means_),
+                          ("HierarchicalGaussianMixture().fit", lambda: HierarchicalGaussianMixture().fit(ridge).labels_)):
+            np.random.seed(123)
+            first = np.array(fit(), copy=True)
+            for rep in (2, 3):
+                np.random.seed(123)
+                again = np.array(fit(), copy=True)
+                if first.shape != again.shape or not np.array_equal(first, again):
+                    return {"reproduced": True, "detail": f"call {rep} of {name} on identical data under an identical global seed differs from call 1: "
+                            "the fit depends on state left behind by earlier fits", "input": {"probe": "repeated-fit", "op": name}}
+
+        def ridge_ll(x):
+            return -0.5 * ((x[1] - x[0] ** 2) ** 2 / 0.05 + x[0] ** 2 / 4.0)
+        hist = []
+        for rep in range(3):
+            s = Sampler(pt, ridge_ll, n_dim=2, n_particles=48, random_state=7, clustering=True, output_dir=tmp)
+            s.run(n_total=96, progress=False)
+            hist.append((s.state.get_history("u", flat=True), s.evidence()[0]))
+            if rep and not (hist[0][0].shape == hist[rep][0].shape and np.array_equal(hist[0][0], hist[rep][0]) and hist[0][1] == hist[rep][1]):
+                return {"reproduced": True, "detail": f"run {rep + 1} with random_state=7 (clustering on) in the same process differs from run 1",
+                        "input": {"probe": "same-seed-repeated", "run": rep + 1}}
         # (2)
         X = np.random.RandomState(5).rand(300, 2)
         X[:150] += 3
